@@ -116,11 +116,16 @@ ApiObs(ev) ==
     [] op = "iter_collect" -> R(b, OVec(b))
     [] op = "clone"     -> R(b, OVec(b))
     [] op \in CmpOps    -> R(b, CmpOut(op, Cmp(b, ev.y.b)))
+    \* a HashSet holding x finds y iff they are equal (Hash consistent with Eq, C10)
+    [] op = "hs_contains" -> R(b, OBool(Cmp(b, ev.y.b) = 0))
+    \* Bit <-> bool / integer (C11): a.nz = 1 iff the integer is not zero; a.n the bit for bit_to_int
+    [] op = "bit_from_int" -> R(b, OBit(a.nz))
+    [] op = "bit_to_int"   -> R(b, OBit(a.n))
 
 ObsOps == {"len", "is_empty", "get", "first", "last", "to_vec", "write", "is_zero",
            "leading_zeros", "leading_ones", "trailing_zeros", "trailing_ones",
            "significant_bits", "fmt", "to_int", "convert", "new_inner", "iter_collect",
-           "clone"} \cup CmpOps
+           "clone", "hs_contains", "bit_from_int", "bit_to_int"} \cup CmpOps
 
 (***************************************************************************)
 (* Edits, slicing, shifts by one, rotations, capacity management           *)
@@ -201,7 +206,7 @@ CapOk(ev, pb, pc) ==
   /\ Len(pb) <= pc
   /\ IsFixed(ev.x) => pc = ev.x.c
   /\ ev.op = "with_capacity" /\ ~IsFixed(ev.x) => pc >= ev.a.n
-  /\ ev.op = "reserve" => pc >= Len(pb) + ev.a.n
+  /\ ev.op = "reserve" /\ ~IsFixed(ev.x) => pc >= Len(pb) + ev.a.n
   /\ ev.op = "shrink_to_fit" /\ ~IsFixed(ev.x) => pc <= FreshCap(ev.x.cl, Len(pb))
 
 (***************************************************************************)
